@@ -36,6 +36,10 @@ def run(ctx):
         res.append(("E1 effects behind no-op guard", n, probs))
         n, probs = ma.refusal_before_effect()
         res.append(("E2 refusals before effects", n, probs))
+        n, probs = ma.loopcheck_problems()
+        for pr, _, _ in probs:
+            pr.rule = "E2"
+        res.append(("E2 loop refusals precede attaches", n, probs))
         n, probs = ma.pair_problems(("E4",))
         res.append(("E4 list edits", n, probs))
         n, probs = ma.children_assignment_order()
